@@ -79,16 +79,30 @@ pub open spec fn final_reg(modes: Seq<ScannerMode>) -> Seq<Ast> { mode_reg(modes
 pub open spec fn p_la_matches(la: Lookahead, lf: LeafF, rest: Seq<char>) -> bool {
     exists|p: int| 1 <= p <= rest.len() && #[trigger] re_lang(spec_parse(la.pattern@), lf, rest.take(p))
 }
-pub open spec fn p_la_ok(pats: Seq<Pattern>, lf: LeafF, tid: TerminalID, rest: Seq<char>) -> bool {
+/// what the compiled scanner does: ONE lookahead per token type, that of the last pattern with this token type that carries one
+pub open spec fn p_la_ok_last(pats: Seq<Pattern>, lf: LeafF, tid: TerminalID, rest: Seq<char>) -> bool {
     let l = la_last(pats, pats.len() as int, tid);
     l >= 0 ==> (pats[l].lookahead->0.is_positive == p_la_matches(pats[l].lookahead->0, lf, rest))
+}
+/// what property C04 states: a pattern is gated by ITS OWN lookahead (none: no condition)
+pub open spec fn p_la_ok_own(p: Pattern, lf: LeafF, rest: Seq<char>) -> bool {
+    p.lookahead matches Some(la) ==> (la.is_positive == p_la_matches(la, lf, rest))
+}
+/// configurations on which the two coincide: patterns of a mode that share a token type carry the same lookahead (or none of them carries one)
+pub open spec fn la_consistent(pats: Seq<Pattern>) -> bool {
+    forall|i: int, j: int| 0 <= i < pats.len() && 0 <= j < pats.len() && tid_of(#[trigger] pats[i]) == tid_of(#[trigger] pats[j]) ==> pats[i].lookahead == pats[j].lookahead
 }
 pub open spec fn p_acc(pats: Seq<Pattern>, lf: LeafF, w: Seq<char>, tid: TerminalID) -> bool {
     exists|i: int| 0 <= i < pats.len() && tid == tid_of(pats[i]) && #[trigger] re_lang(spec_parse(pats[i].pattern@), lf, w)
 }
 /// (l, tid) is a candidate token at the start of text: some pattern with token type tid matches the first l characters and the lookahead guarding tid agrees with what follows
+pub open spec fn p_cand_last(pats: Seq<Pattern>, lf: LeafF, text: Seq<char>, l: int, tid: TerminalID) -> bool {
+    1 <= l <= text.len() && p_acc(pats, lf, text.take(l), tid) && p_la_ok_last(pats, lf, tid, text.skip(l))
+}
+/// THE PROPERTY'S candidate (C04): some pattern with token type tid matches the first l characters and its own lookahead condition holds on the rest
 pub open spec fn p_cand(pats: Seq<Pattern>, lf: LeafF, text: Seq<char>, l: int, tid: TerminalID) -> bool {
-    1 <= l <= text.len() && p_acc(pats, lf, text.take(l), tid) && p_la_ok(pats, lf, tid, text.skip(l))
+    1 <= l <= text.len() && exists|i: int| 0 <= i < pats.len() && tid == tid_of(pats[i]) && #[trigger] re_lang(spec_parse(pats[i].pattern@), lf, text.take(l))
+        && p_la_ok_own(pats[i], lf, text.skip(l))
 }
 
 /// THEOREM: in mode k of a built scanner, the scan side's `acc` is "some pattern of the mode with that token type matches"
@@ -171,15 +185,66 @@ pub proof fn theorem_scanner_mode_lookahead(modes: Seq<ScannerMode>, k: int, cm:
         }
     }
 }
-/// THEOREM (the link between the two halves): for a scanner built by ScannerImpl::try_from, the candidates the scan-side contracts (find_post of C01 / C04 / C05)
-/// quantify over are exactly the pattern-level candidates of the active mode
-pub proof fn theorem_scanner_cand(modes: Seq<ScannerMode>, k: int, cm: CompiledScannerMode, cls: ClsF, lf: LeafF, text: Seq<char>, l: int, tid: TerminalID)
+/// what the compiled scanner's candidates are, in terms of the patterns (one lookahead per token type: that of the last pattern carrying one)
+pub proof fn lemma_scanner_cand_last(modes: Seq<ScannerMode>, k: int, cm: CompiledScannerMode, cls: ClsF, lf: LeafF, text: Seq<char>, l: int, tid: TerminalID)
     requires
         0 <= k < modes.len(), mode_built(modes, k, cm), modes_fit(modes), lf_respects(lf), cls_ok(cls, lf, final_reg(modes)),
-    ensures cand(core(cm.dfa), cls, text, l, tid) <==> p_cand(modes[k].patterns@, lf, text, l, tid)
+    ensures cand(core(cm.dfa), cls, text, l, tid) <==> p_cand_last(modes[k].patterns@, lf, text, l, tid)
 {
     if 1 <= l <= text.len() {
         theorem_scanner_mode_acc(modes, k, cm, cls, lf, text.take(l), tid);
         theorem_scanner_mode_lookahead(modes, k, cm, cls, lf, tid, text.skip(l));
     }
+}
+/// when patterns sharing a token type carry the same lookahead, "the last one's lookahead" is every such pattern's own lookahead
+pub proof fn lemma_last_is_own(pats: Seq<Pattern>, lf: LeafF, text: Seq<char>, l: int, tid: TerminalID)
+    requires la_consistent(pats)
+    ensures p_cand_last(pats, lf, text, l, tid) <==> p_cand(pats, lf, text, l, tid)
+{
+    let n = pats.len() as int;
+    let rest = text.skip(l);
+    let ll = la_last(pats, n, tid);
+    assert forall|i: int| 0 <= i < n && tid == tid_of(pats[i]) implies (p_la_ok_own(#[trigger] pats[i], lf, rest) <==> p_la_ok_last(pats, lf, tid, rest)) by {
+        if ll >= 0 {
+            lemma_la_last_is(pats, n, tid);
+            assert(pats[i].lookahead == pats[ll].lookahead);
+        } else {
+            lemma_la_last_none(pats, n, tid, i);
+        }
+    }
+    if p_cand_last(pats, lf, text, l, tid) {
+        let i = choose|i: int| 0 <= i < pats.len() && tid == tid_of(pats[i]) && #[trigger] re_lang(spec_parse(pats[i].pattern@), lf, text.take(l));
+        assert(p_la_ok_own(pats[i], lf, rest));
+    }
+    if p_cand(pats, lf, text, l, tid) {
+        let i = choose|i: int| 0 <= i < pats.len() && tid == tid_of(pats[i]) && #[trigger] re_lang(spec_parse(pats[i].pattern@), lf, text.take(l)) && p_la_ok_own(pats[i], lf, rest);
+        assert(p_la_ok_last(pats, lf, tid, rest));
+    }
+}
+pub proof fn lemma_la_last_is(pats: Seq<Pattern>, k: int, tid: TerminalID)
+    requires la_last(pats, k, tid) >= 0
+    ensures 0 <= la_last(pats, k, tid) < k, la_last(pats, k, tid) < pats.len(), pats[la_last(pats, k, tid)].lookahead is Some, tid_of(pats[la_last(pats, k, tid)]) == tid
+    decreases k
+{
+    if k > 0 && !(k <= pats.len() && pats[k - 1].lookahead is Some && tid_of(pats[k - 1]) == tid) { lemma_la_last_is(pats, k - 1, tid); }
+}
+pub proof fn lemma_la_last_none(pats: Seq<Pattern>, k: int, tid: TerminalID, i: int)
+    requires la_last(pats, k, tid) < 0, 0 <= i < k, i < pats.len(), tid_of(pats[i]) == tid
+    ensures pats[i].lookahead is None
+    decreases k
+{
+    if k > 0 && i < k - 1 { lemma_la_last_none(pats, k - 1, tid, i); }
+}
+/// THEOREM (the link between the two halves): for a scanner built by ScannerImpl::try_from, the candidates the scan-side contracts (find_post of C01 / C04 / C05)
+/// quantify over are exactly the pattern-level candidates of the active mode AS PROPERTY C04 STATES THEM (every pattern gated by its own lookahead) — for modes in
+/// which patterns sharing a token type carry the same lookahead. Without that hypothesis the statement is FALSE for the pinned code (known finding D9, see
+/// units/u_c04find/finding_c04.rs): lookaheads are stored per token type, not per pattern.
+pub proof fn theorem_scanner_cand(modes: Seq<ScannerMode>, k: int, cm: CompiledScannerMode, cls: ClsF, lf: LeafF, text: Seq<char>, l: int, tid: TerminalID)
+    requires
+        0 <= k < modes.len(), mode_built(modes, k, cm), modes_fit(modes), lf_respects(lf), cls_ok(cls, lf, final_reg(modes)),
+        la_consistent(modes[k].patterns@),
+    ensures cand(core(cm.dfa), cls, text, l, tid) <==> p_cand(modes[k].patterns@, lf, text, l, tid)
+{
+    lemma_scanner_cand_last(modes, k, cm, cls, lf, text, l, tid);
+    lemma_last_is_own(modes[k].patterns@, lf, text, l, tid);
 }
